@@ -137,6 +137,12 @@ def case_key(rec, v):
             return "C20:stdlib:%s:not-in-package.loaded" % op["n"]
         what = {"ld": "missing-from-package.loaded", "gl": "global-differs", "res": "require-result"}.get(field, field)
         return "C20:stdlib:%s:%s" % (op["n"], what)
+    gm = "none"
+    for o in rec["h"][:pos - 1]:
+        if o["op"] == "gmeta":
+            gm = o["kind"]
+    if op["op"] == "register" and gm != "none":
+        return "C20:metatable-on-globals:module()/RegisterModule-look-names-up-through-__index:" + gm
     if op["op"] == "register":
         pl = prev["ld"][ni] if prev else "nil"
         pg = prev["gl"][ni] if prev else "nil"
@@ -159,10 +165,16 @@ def case_key(rec, v):
                 sym = "package.loaded-entries-forgotten"
         return "C20:Open-%s%s:%s" % (op["lib"], "-again" if again else "", sym)
     # sandbox contexts: one defect class each
-    hidden, replaced = False, False
+    hidden, replaced, unloaded, gmeta = False, False, False, "none"
     for o in rec["h"][:pos - 1]:
         if o["op"] == "glob" and o["n"] == "package":
             hidden = o["kind"] in ("nil", "num")
+        elif o["op"] == "clearall" or (o["op"] == "clear" and o["n"] == "package"):
+            unloaded = True
+        elif o["op"] == "gmeta":
+            gmeta = o["kind"]
+        elif o["op"] in ("req", "register") and o["n"] == "package":
+            unloaded = False
         elif o["op"] == "loaders":
             replaced = replaced or o["how"] == "replace"
         elif o["op"] == "open" and o.get("lib") == "package":
@@ -175,8 +187,12 @@ def case_key(rec, v):
                 first = got["log"][k][3:]
         if hidden and first[:2] == ["err", "other"] and "non-table" in first[2]:
             return "C20:global-package-hidden:require-and-PreloadModule-reach-package.preload/path-through-the-global-variable"
+        if unloaded and first[:2] == ["err", "other"]:
+            return "C20:package.loaded.package-removed:require-and-PreloadModule-find-the-package-table-through-package.loaded"
         if replaced:
             return "C20:package.loaders-replaced:require-keeps-using-the-original-searcher-table"
+    if gmeta != "none" and op["op"] in ("req", "register"):
+        return "C20:metatable-on-globals:module()/RegisterModule-look-names-up-through-__index:" + gmeta
     if op["op"] == "preload" and op.get("host"):
         return "C20:PreloadModule:%s" % symptom(rec, field, exp, got)
     if op["op"] != "req":
@@ -532,12 +548,17 @@ def rand_hist(rng, n, names, path, plainfam=False, sandbox=False):
     for _ in range(n):
         k = wchoice(rng, [("req", 45), ("preload", 12), ("file", 16), ("clear", 10), ("unpreload", 4), ("rmfile", 4),
                           ("glob", 4 if plain else 0), ("register", 0 if plainfam or not plain else 6), ("path", 2), ("reopen", 2),
-                          ("hidepkg", 6 if sandbox else 0), ("loaders", 6 if sandbox else 0)])
+                          ("hidepkg", 6 if sandbox else 0), ("loaders", 6 if sandbox else 0),
+                          ("unloadpkg", 5 if sandbox else 0), ("gmeta", 4 if sandbox else 0)])
         nm = rng.choice(names)
         if k == "req":
             h.append({"op": k, "n": rng.choice(allnames)})
         elif k == "hidepkg":      # the script hides / replaces / restores the global variable "package"
             h.append({"op": "glob", "n": "package", "kind": rng.choice(["nil", "num", "loaded"])})
+        elif k == "unloadpkg":    # package.loaded.package removed, or every entry (hot reload)
+            h.append({"op": "clear", "n": "package"} if rng.random() < 0.5 else {"op": "clearall", "n": "package"})
+        elif k == "gmeta":        # a metatable on the table of globals
+            h.append({"op": "gmeta", "n": "package", "kind": rng.choice(["strict", "fallback", "none"])})
         elif k == "loaders":      # package.loaders edited in place or replaced by a new table
             h.append({"op": "loaders", "n": "package", "how": rng.choice(["replace", "inplace"]), "list": rng.choice(SEARCHER_LISTS)})
         elif k == "clear" or k == "unpreload":
@@ -615,7 +636,7 @@ def run(tier):
     mcs.append(("host mode: state without libraries, base/package/string/table opened in any order (package twice), RegisterModule, "
                 "PreloadModule, require", C(5, "{1,4}", '{"H"}', "FALSE", 10 if thorough else 9, NameSel=3)))
     mcs.append(("sandbox mode: global package set to nil / number / restored, package.loaders edited in place or replaced "
-                "(custom / reordered / refusing / no searchers)", C(3 if thorough else 2, "{1,4}", '{"L","F1"}', "FALSE", 4, NameSel=4)))
+                "(custom / reordered / refusing / no searchers)", C(3 if thorough else 2, "{1,4,10}" if thorough else "{1,10}", '{"L","F1"}', "FALSE", 4 if thorough else 3, NameSel=4)))
     if thorough:
         mcs.append(("3 names, depth 5, require/clear/preload of value, fail, require-other, require-self",
                     C(3, "{1,4,5,6}", '{"L"}', "FALSE", 5)))
@@ -637,7 +658,7 @@ def run(tier):
             # SkipOpenLibs: libraries opened in any order by the history
             ("q5-host-opens-libraries", C(5, "{1}", '{"H"}', "FALSE", 5, NameSel=3)),
             # global "package" hidden / restored, package.loaders edited in place or replaced
-            ("q2-sandbox-hidden-package-replaced-loaders", C(2, "{1}", '{"L","H","F1"}', "FALSE", 3, NameSel=4))]
+            ("q2-sandbox-hidden-package-replaced-loaders", C(2, "{1,10}", '{"L","F1"}', "FALSE", 3, NameSel=4))]
     if thorough:
         gens = [("t2-every-behaviour-depth4", C(2, ALLB, '{"L","H"}', "FALSE", 4)),
                 ("t4-dotted-names-path-search", C(4, "{1,4}", '{"L","F1","F2","F3"}', "FALSE", 3, **DOTS)),
@@ -647,8 +668,8 @@ def run(tier):
                 ("t2-depth5", C(2, "{1,4,5,8}", '{"L","F1"}', "FALSE", 5)),
                 ("t1-load-unload-reload", C(1, "{1,2,3,4,7,8,9,10,12,13,15}", '{"L","H","F1"}', "FALSE", 4)),
                 ("t5-host-opens-libraries", C(5, "{1}", '{"H"}', "FALSE", 6, NameSel=3)),
-                ("t2-sandbox-hidden-package-replaced-loaders", C(2, "{1,4}", '{"L","H","F1"}', "FALSE", 4 if False else 3, NameSel=4)),
-                ("t3-sandbox-hidden-package-replaced-loaders", C(3, "{1}", '{"L","F1"}', "FALSE", 3, NameSel=4))]
+                ("t2-sandbox-hidden-package-replaced-loaders", C(2, "{1,4,10}", '{"L","H","F1"}', "FALSE", 3, NameSel=4)),
+                ("t3-sandbox-hidden-package-replaced-loaders", C(3, "{1,10}", '{"L","F1"}', "FALSE", 3, NameSel=4))]
     gens = [(tag, GEN_NAMES[int(c["NameSel"])][:int(c["NNames"])], c) for tag, c in gens]
     genfut = [pool.submit(vlib.run_tlc, "RequireMC", "RequireGen", consts=consts, timeout=1500, workers=4) for _, _, consts in gens]
     mcfut = [pool.submit(vlib.run_tlc, "RequireMC", "RequireMC", consts=consts, timeout=1500, workers=4) for _, consts in mcs]
@@ -662,7 +683,7 @@ def run(tier):
             stats["states"] += r.distinct
             stats["transitions"] += r.generated
             mc.append({"what": what, "constants": consts, "generated": r.generated, "distinct": r.distinct})
-            vlib.log("[C20] MC %s: %d generated / %d distinct states, 4 invariants + 17 step laws hold (%.0fs)" % (what, r.generated, r.distinct, r.wall))
+            vlib.log("[C20] MC %s: %d generated / %d distinct states, 4 invariants + 20 step laws hold (%.0fs)" % (what, r.generated, r.distinct, r.wall))
     finally:
         pool.shutdown(wait=True, cancel_futures=True)
     # 3. TRACE: libraries opened by the host, random longer histories
